@@ -1145,6 +1145,14 @@ def FIBER(
 
     A = input.signal
 
+    if beta_2 == 0 and beta_3 == 0 and gamma != 0:
+        # without dispersion self-phase modulation has a closed form; L_eff accounts for the loss
+        L_eff = (1 - np.exp(-alpha * length)) / alpha if alpha != 0 else length
+        A = A * np.exp(-alpha / 2 * length + 1j * gamma * L_eff * np.abs(A) ** 2)
+        output = optical_signal(A, input.noise)
+        output.execution_time = toc()
+        return output
+
     h = (
         length
         if (beta_2 == 0 and beta_3 == 0) or gamma == 0
